@@ -73,6 +73,13 @@ def run(ctx, mod, args, t0):
         print('REPLAY: no longer fails')
         return 0
 
+    # a replay file left by an earlier run with this seed does not describe this run
+    import glob
+    for old in glob.glob(os.path.join(VERIF, 'replay', '%s-%d-*.json' % (prop, ctx.seed))):
+        try:
+            os.remove(old)
+        except OSError:
+            pass
     # ---- 0/1: regenerate tables, rebuild proofs + driver
     broken = []          # theorem names that no longer check
     infra_notes = []
